@@ -89,7 +89,7 @@ def abstract_kw(lay, kwargs, P):
         if e["k"] == "x":
             pr = walk.project_flag(e, v)
         else:
-            pr = walk.project_field(e, v, P, None)
+            pr = walk.project_field(e, v, P, None, canon=True)
         out.append([name, "bad" if pr[0] == "?" else pr[0], pr[1]])
     return out
 
@@ -177,7 +177,7 @@ def project_target(e, v, P):
             if abs(Fraction(v) - raw * scale) <= abs(scale) + walk.HALF_E12:
                 return [e["n"], "f", list(cand)]
         return [e["n"], "?", []]
-    pr = walk.project_field(e, v, P, None)
+    pr = walk.project_field(e, v, P, None, canon=True)
     return [e["n"], pr[0], pr[1]]
 
 
